@@ -876,6 +876,31 @@ def flips(tr, enc, tried, limit):
                 order = enc.solve(cons, sorted(incv))
                 if order is not None:
                     out.append(order)
+    # condvar: can the notification that ended a wait be issued before the wait began (and so wake nobody)?
+    for ix, e in enumerate(tr.ev):
+        if e['k'] != 'wait-':
+            continue
+        nt = enc.notify_of(ix)
+        wb = enc.wait_begin_of(ix)
+        if nt is None or wb is None:
+            continue
+        key = ('notify-first', e['t'], tr.ev[wb]['i'], tr.ev[nt]['t'], tr.ev[nt]['i'])
+        if key in tried:
+            continue
+        if len(out) >= limit + 8:
+            return out
+        pw = tr.prev.get(wb)
+        inc = enc.closure([nt] + ([pw] if pw is not None else []))
+        if wb in inc:
+            continue
+        tried.add(key)
+        O = enc.O
+        cons = enc.base(inc) + enc.rf_consistency(inc)
+        # the waiter's mutex section is still open (it ends with the wait): writers of that mutex in the prefix precede it
+        cons += [O[nt] < O[wb]] + ([O[pw] < O[wb]] if pw is not None else []) + [O[i] < O[wb] for i in inc]
+        order = enc.solve(cons, sorted(inc) + [wb])
+        if order is not None:
+            out.append(order)
     # try_read / try_write / try_lock that succeeded: can it be made to find the lock held?
     for r in tr.sections:
         rq = tr.prev.get(r.acq)
